@@ -392,6 +392,12 @@ fn crumb_write(q: Option<(&str, &Value)>) {
                         body.extend_from_slice(b",\"doc\":");
                         body.extend_from_slice(&doc_text);
                         body.push(b'}');
+                    } else if let Some(shape) = big_doc_shape(doc) {
+                        // too large to copy at every call, but regular: the long arrays of the boxes
+                        body.pop();
+                        body.extend_from_slice(b",\"doc_shape\":");
+                        body.extend_from_slice(&serde_json::to_vec(&shape).unwrap_or_default());
+                        body.push(b'}');
                     }
                     let _ = f.write_all_at(&body, 4);
                     let _ = f.write_all_at(&(body.len() as u32).to_le_bytes(), 0);
@@ -399,6 +405,36 @@ fn crumb_write(q: Option<(&str, &Value)>) {
             }
         }
     });
+}
+
+/// `[0, 1, .. n-1]`, alone or as the only member of an object: described instead of copied
+fn big_doc_shape(doc: &Value) -> Option<Value> {
+    fn iota(v: &Value) -> Option<usize> {
+        let a = v.as_array()?;
+        if a.iter().enumerate().all(|(i, x)| x.as_i64() == Some(i as i64)) {
+            Some(a.len())
+        } else {
+            None
+        }
+    }
+    if let Some(n) = iota(doc) {
+        return Some(json!({"iota": n}));
+    }
+    let m = doc.as_object()?;
+    if m.len() == 1 {
+        let (k, v) = m.iter().next()?;
+        return iota(v).map(|n| json!({"iota": n, "under": k}));
+    }
+    None
+}
+
+fn doc_of_shape(shape: &Value) -> Option<Value> {
+    let n = shape["iota"].as_u64()? as usize;
+    let arr = Value::Array((0..n as i64).map(|i| json!(i)).collect());
+    Some(match shape["under"].as_str() {
+        Some(k) => json!({ k: arr }),
+        None => arr,
+    })
 }
 
 /// the inputs that were in flight when a supervised run died (read by the supervisor)
@@ -411,7 +447,12 @@ pub fn read_crumbs(dir: &std::path::Path) -> Vec<Value> {
                     let n = u32::from_le_bytes([bytes[0], bytes[1], bytes[2], bytes[3]]) as usize;
                     if n > 0 && bytes.len() >= 4 + n {
                         if let Ok(text) = std::str::from_utf8(&bytes[4..4 + n]) {
-                            if let Ok(v) = crate::json::parse_json_unbounded(text) {
+                            if let Ok(mut v) = crate::json::parse_json_unbounded(text) {
+                                if v.get("doc").is_none() {
+                                    if let Some(d) = v.get("doc_shape").and_then(doc_of_shape) {
+                                        v["doc"] = d;
+                                    }
+                                }
                                 out.push(v);
                             }
                         }
